@@ -14,6 +14,11 @@ type nat =
 let fst = function
 | (x, _) -> x
 
+(** val snd : ('a1 * 'a2) -> 'a2 **)
+
+let snd = function
+| (_, y) -> y
+
 (** val length : 'a1 list -> nat **)
 
 let rec length = function
@@ -40,6 +45,13 @@ module Coq__1 = struct
    | S p -> S (add p m)
 end
 include Coq__1
+
+(** val mul : nat -> nat -> nat **)
+
+let rec mul n0 m =
+  match n0 with
+  | O -> O
+  | S p -> add m (mul p m)
 
 (** val sub : nat -> nat -> nat **)
 
@@ -69,7 +81,27 @@ module Nat =
     | S n' -> (match m with
                | O -> false
                | S m' -> eqb n' m')
+
+  (** val leb : nat -> nat -> bool **)
+
+  let rec leb n0 m =
+    match n0 with
+    | O -> true
+    | S n' -> (match m with
+               | O -> false
+               | S m' -> leb n' m')
  end
+
+(** val nth : nat -> 'a1 list -> 'a1 -> 'a1 **)
+
+let rec nth n0 l default =
+  match n0 with
+  | O -> (match l with
+          | [] -> default
+          | x :: _ -> x)
+  | S m -> (match l with
+            | [] -> default
+            | _ :: t -> nth m t default)
 
 (** val rev : 'a1 list -> 'a1 list **)
 
@@ -83,11 +115,33 @@ let rec map f = function
 | [] -> []
 | a :: t -> (f a) :: (map f t)
 
+(** val flat_map : ('a1 -> 'a2 list) -> 'a1 list -> 'a2 list **)
+
+let rec flat_map f = function
+| [] -> []
+| x :: t -> app (f x) (flat_map f t)
+
 (** val existsb : ('a1 -> bool) -> 'a1 list -> bool **)
 
 let rec existsb f = function
 | [] -> false
 | a :: l0 -> (||) (f a) (existsb f l0)
+
+(** val forallb : ('a1 -> bool) -> 'a1 list -> bool **)
+
+let rec forallb f = function
+| [] -> true
+| a :: l0 -> (&&) (f a) (forallb f l0)
+
+(** val combine : 'a1 list -> 'a2 list -> ('a1 * 'a2) list **)
+
+let rec combine l l' =
+  match l with
+  | [] -> []
+  | x :: tl ->
+    (match l' with
+     | [] -> []
+     | y :: tl' -> (x, y) :: (combine tl tl'))
 
 (** val firstn : nat -> 'a1 list -> 'a1 list **)
 
@@ -106,6 +160,12 @@ let rec skipn n0 l =
   | S n1 -> (match l with
              | [] -> []
              | _ :: l0 -> skipn n1 l0)
+
+(** val seq : nat -> nat -> nat list **)
+
+let rec seq start = function
+| O -> []
+| S len0 -> start :: (seq (S start) len0)
 
 type positive =
 | XI of positive
@@ -479,6 +539,12 @@ let rec repeat_app n0 s =
 let nrepeat n0 s =
   repeat_app (N.to_nat n0) s
 
+(** val count_while : ('a1 -> bool) -> 'a1 list -> nat **)
+
+let rec count_while p = function
+| [] -> O
+| b :: t -> if p b then S (count_while p t) else O
+
 (** val is_prefix : bytes -> bytes -> bool **)
 
 let rec is_prefix p l =
@@ -544,6 +610,11 @@ let is_alpha b =
 let is_digit b =
   (&&) (N.leb (Npos (XO (XO (XO (XO (XI XH)))))) b)
     (N.leb b (Npos (XI (XO (XO (XI (XI XH)))))))
+
+(** val is_alnum : byte -> bool **)
+
+let is_alnum b =
+  (||) (is_alpha b) (is_digit b)
 
 (** val to_lower : byte -> byte **)
 
@@ -1201,6 +1272,23 @@ let commentKind_is_singleline = function
 | CoK_IndividualLine -> true
 | _ -> false
 
+(** val conditionalDirectiveKind_is_if : conditionalDirectiveKind -> bool **)
+
+let conditionalDirectiveKind_is_if = function
+| CDK_If -> true
+| CDK_Ifdef -> true
+| CDK_Ifndef -> true
+| CDK_Ifopt -> true
+| _ -> false
+
+(** val conditionalDirectiveKind_is_else :
+    conditionalDirectiveKind -> bool **)
+
+let conditionalDirectiveKind_is_else = function
+| CDK_Elseif -> true
+| CDK_Else -> true
+| _ -> false
+
 (** val tt_of_raw : rawTokenType -> tokenType **)
 
 let tt_of_raw = function
@@ -1233,6 +1321,12 @@ let is_eof = function
 
 let is_sl_comment = function
 | TT_Comment ck -> commentKind_is_singleline ck
+| _ -> false
+
+(** val is_comment : tokenType -> bool **)
+
+let is_comment = function
+| TT_Comment _ -> true
 | _ -> false
 
 (** val is_keyword : tokenType -> bool **)
@@ -1282,6 +1376,12 @@ let rs_of_config crlf use_tabs tab_width cont_indents =
   then rs_new crlf true (Npos XH) cont_indents
   else rs_new crlf false tab_width (u8_sat_mul cont_indents tab_width)
 
+(** val has_break : bytes -> bool **)
+
+let has_break ws =
+  (||) (contains_byte (Npos (XO (XI (XO XH)))) ws)
+    (contains_byte (Npos (XI (XO (XI XH)))) ws)
+
 (** val emit_ws : rsettings -> bool -> ftoken -> bytes **)
 
 let emit_ws rs must_break = function
@@ -1289,10 +1389,7 @@ let emit_ws rs must_break = function
   let eof = is_eof tok.t_ty in
   if f.f_ignored
   then app
-         (if (&&)
-               ((&&) must_break
-                 (negb (contains_byte (Npos (XO (XI (XO XH)))) tok.t_ws)))
-               (negb eof)
+         (if (&&) ((&&) must_break (negb (has_break tok.t_ws))) (negb eof)
           then rs.rs_newline
           else []) tok.t_ws
   else let nls =
@@ -1393,31 +1490,31 @@ let comment_is_separator alnum comment =
        | _ :: _ -> negb (alnum (first_char c))))
     (all_chunks_eq (length c) (first_char c) c)
 
+(** val flc_comment : bytes -> bytes **)
+
+let flc_comment comment0 = match comment0 with
+| [] -> comment0
+| b :: r -> if N.eqb b (Npos (XI (XI (XI (XI (XO XH)))))) then r else comment0
+
+(** val flc_new1 : (bytes -> bool) -> bytes -> bytes -> bytes option **)
+
+let flc_new1 alnum content comment = match comment with
+| [] -> None
+| b :: _ ->
+  if (&&) (negb (is_ascii_ws b)) (negb (comment_is_separator alnum comment))
+  then Some
+         (app (firstn (sub (length content) (length comment)) content)
+           (app ((Npos (XO (XO (XO (XO (XO XH)))))) :: []) comment))
+  else None
+
 (** val format_line_comment : (bytes -> bool) -> bytes -> bytes option **)
 
 let format_line_comment alnum content =
   match strip_prefix ((Npos (XI (XI (XI (XI (XO XH)))))) :: ((Npos (XI (XI
           (XI (XI (XO XH)))))) :: [])) content with
   | Some comment0 ->
-    let comment =
-      match comment0 with
-      | [] -> comment0
-      | b :: r ->
-        if N.eqb b (Npos (XI (XI (XI (XI (XO XH)))))) then r else comment0
-    in
-    let new1 =
-      match comment with
-      | [] -> None
-      | b :: _ ->
-        if (&&) (negb (is_ascii_ws b))
-             (negb (comment_is_separator alnum comment))
-        then Some
-               (app (firstn (sub (length content) (length comment)) content)
-                 (app ((Npos (XO (XO (XO (XO (XO XH)))))) :: []) comment))
-        else None
-    in
-    let trimmed = trim_ascii_end content in
-    if Nat.eqb (length trimmed) (length content)
+    let new1 = flc_new1 alnum content (flc_comment comment0) in
+    if Nat.eqb (length (trim_ascii_end content)) (length content)
     then new1
     else Some (trim_ascii_end (match new1 with
                                | Some s -> s
@@ -1591,3 +1688,410 @@ let tok_ok_b ws content =
     (match content with
      | [] -> true
      | b :: _ -> negb (N.eqb b (Npos (XO (XO (XO (XO (XO (XO (XO XH))))))))))
+
+type toggle =
+| TOn
+| TOff
+
+(** val starts_with_icase : bytes -> bytes -> bool **)
+
+let starts_with_icase input prefix =
+  (&&) (Nat.leb (length prefix) (length input))
+    (bytes_eqb (lower (firstn (length prefix) input)) (lower prefix))
+
+(** val strip_prefix_icase : bytes -> bytes -> bytes option **)
+
+let strip_prefix_icase input prefix =
+  if starts_with_icase input prefix
+  then Some (skipn (length prefix) input)
+  else None
+
+(** val parse_pasfmt_toggle : bytes -> toggle option **)
+
+let parse_pasfmt_toggle input =
+  let word = firstn (count_while is_alnum input) input in
+  if bytes_eqb (lower word) ((Npos (XI (XI (XI (XI (XO (XI
+       XH))))))) :: ((Npos (XO (XI (XI (XI (XO (XI XH))))))) :: []))
+  then Some TOn
+  else if bytes_eqb (lower word) ((Npos (XI (XI (XI (XI (XO (XI
+            XH))))))) :: ((Npos (XO (XI (XI (XO (XO (XI XH))))))) :: ((Npos
+            (XO (XI (XI (XO (XO (XI XH))))))) :: [])))
+       then Some TOff
+       else None
+
+(** val pasfmt_word : bytes **)
+
+let pasfmt_word =
+  (Npos (XO (XO (XO (XO (XI (XI XH))))))) :: ((Npos (XI (XO (XO (XO (XO (XI
+    XH))))))) :: ((Npos (XI (XI (XO (XO (XI (XI XH))))))) :: ((Npos (XO (XI
+    (XI (XO (XO (XI XH))))))) :: ((Npos (XI (XO (XI (XI (XO (XI
+    XH))))))) :: ((Npos (XO (XO (XI (XO (XI (XI XH))))))) :: [])))))
+
+(** val parse_pasfmt_directive_comment_contents : bytes -> toggle option **)
+
+let parse_pasfmt_directive_comment_contents input =
+  let input0 = skipn (count_while is_ascii_ws input) input in
+  (match strip_prefix_icase input0 pasfmt_word with
+   | Some input1 ->
+     (match count_while is_ascii_ws input1 with
+      | O -> None
+      | S n0 -> parse_pasfmt_toggle (skipn (S n0) input1))
+   | None -> None)
+
+(** val strip_prefix_b : bytes -> bytes -> bytes option **)
+
+let strip_prefix_b p l =
+  if is_prefix p l then Some (skipn (length p) l) else None
+
+(** val parse_toggle : bytes -> toggle option **)
+
+let parse_toggle content =
+  match strip_prefix_b ((Npos (XI (XI (XI (XI (XO XH)))))) :: ((Npos (XI (XI
+          (XI (XI (XO XH)))))) :: [])) content with
+  | Some c -> parse_pasfmt_directive_comment_contents c
+  | None ->
+    (match strip_prefix_b ((Npos (XO (XO (XO (XI (XO XH)))))) :: ((Npos (XO
+             (XI (XO (XI (XO XH)))))) :: [])) content with
+     | Some c -> parse_pasfmt_directive_comment_contents c
+     | None ->
+       (match strip_prefix_b ((Npos (XI (XI (XO (XI (XI (XI XH))))))) :: [])
+                content with
+        | Some c -> parse_pasfmt_directive_comment_contents c
+        | None -> None))
+
+(** val toggle_marks : bool -> token list -> bool list **)
+
+let rec toggle_marks ignored = function
+| [] -> []
+| tok :: r ->
+  let t = if is_comment tok.t_ty then parse_toggle tok.t_content else None in
+  let ignored' =
+    match t with
+    | Some t0 -> (match t0 with
+                  | TOn -> false
+                  | TOff -> true)
+    | None -> ignored
+  in
+  let on_toggle = match t with
+                  | Some _ -> true
+                  | None -> false in
+  ((||) ignored' on_toggle) :: (toggle_marks ignored' r)
+
+(** val asm_marked : (logicalLineType * nat list) list -> nat -> bool **)
+
+let asm_marked lines i =
+  existsb (fun ln ->
+    match fst ln with
+    | LLT_AsmInstruction -> existsb (Nat.eqb i) (snd ln)
+    | _ -> false) lines
+
+(** val ignore_marks :
+    token list -> (logicalLineType * nat list) list -> bool list **)
+
+let ignore_marks toks lines =
+  let tm = toggle_marks false toks in
+  map (fun ib -> (||) (snd ib) (asm_marked lines (fst ib)))
+    (combine (seq O (length tm)) tm)
+
+(** val void_lines :
+    bool list -> (logicalLineType * nat list) list -> (logicalLineType * nat
+    list) list **)
+
+let void_lines marks lines =
+  if existsb (fun b -> b) marks
+  then map (fun ln ->
+         if forallb (fun i -> nth i marks false) (snd ln)
+         then (LLT_Voided, [])
+         else ln) lines
+  else lines
+
+(** val canon_tok : bool -> ftoken -> bool **)
+
+let canon_tok first p =
+  let f = snd p in
+  (||) f.f_ignored
+    ((&&)
+      ((&&)
+        (if N.ltb N0 f.f_nl
+         then N.eqb f.f_sp N0
+         else (&&) ((&&) (N.eqb f.f_ind N0) (N.eqb f.f_cont N0))
+                (N.leb f.f_sp (Npos XH))) (N.leb f.f_nl (Npos (XO XH))))
+      (if first then (||) (N.eqb f.f_nl N0) (is_eof (fst p).t_ty) else true))
+
+(** val canon_fmt_from : bool -> ftoken list -> bool **)
+
+let rec canon_fmt_from first = function
+| [] -> true
+| p :: r -> (&&) (canon_tok first p) (canon_fmt_from false r)
+
+(** val canon_fmt : ftoken list -> bool **)
+
+let canon_fmt l =
+  canon_fmt_from true l
+
+(** val canon_first_bad : bool -> ftoken list -> nat -> nat option **)
+
+let rec canon_first_bad first l i =
+  match l with
+  | [] -> None
+  | p :: r ->
+    if canon_tok first p then canon_first_bad false r (S i) else Some i
+
+(** val eof_canon : ftoken list -> bool **)
+
+let eof_canon l =
+  match rev l with
+  | [] -> false
+  | f0 :: _ ->
+    let (tok, f) = f0 in
+    (&&)
+      ((&&)
+        ((&&)
+          ((&&) ((&&) (is_eof tok.t_ty) (N.eqb f.f_nl (Npos XH)))
+            (N.eqb f.f_ind N0)) (N.eqb f.f_cont N0)) (N.eqb f.f_sp N0))
+      (match tok.t_content with
+       | [] -> true
+       | _ :: _ -> false)
+
+(** val ends_nonblank : bytes -> bool **)
+
+let ends_nonblank c =
+  match rev c with
+  | [] -> true
+  | z0 :: r ->
+    (&&) (negb (N.leb z0 (Npos (XO (XO (XO (XO (XO XH))))))))
+      (negb
+        (match r with
+         | [] -> false
+         | y :: l ->
+           (match l with
+            | [] -> false
+            | x :: _ ->
+              (&&)
+                ((&&) (N.eqb x (Npos (XI (XI (XO (XO (XO (XI (XI XH)))))))))
+                  (N.eqb y (Npos (XO (XO (XO (XO (XO (XO (XO XH))))))))))
+                (N.eqb z0 (Npos (XO (XO (XO (XO (XO (XO (XO XH))))))))))))
+
+type tree =
+| Tree of section list
+and section =
+| Flat of bool * nat * nat
+| Nested of tree list
+
+type itok = nat * rawTokenType
+
+(** val enumerate_from : nat -> rawTokenType list -> itok list **)
+
+let rec enumerate_from i = function
+| [] -> []
+| t :: r -> (i, t) :: (enumerate_from (S i) r)
+
+(** val cd_kind : rawTokenType -> conditionalDirectiveKind option **)
+
+let cd_kind = function
+| RTT_ConditionalDirective k -> Some k
+| _ -> None
+
+(** val parse_flat_go :
+    nat option -> (nat * nat) -> itok list ->
+    ((nat * nat) * conditionalDirectiveKind option) * itok list **)
+
+let rec parse_flat_go start range = function
+| [] -> ((range, None), [])
+| i :: r ->
+  let (idx, ty) = i in
+  (match cd_kind ty with
+   | Some cdk -> ((range, (Some cdk)), r)
+   | None ->
+     let s = match start with
+             | Some s -> s
+             | None -> idx in
+     parse_flat_go (Some s) (s, (add idx (S O))) r)
+
+(** val parse_flat :
+    itok list -> (section * conditionalDirectiveKind option) * itok list **)
+
+let parse_flat toks =
+  let (p, r) = parse_flat_go None (O, O) toks in
+  let (range, cdk) = p in (((Flat (false, (fst range), (snd range))), cdk), r)
+
+(** val parse_sections :
+    nat -> bool -> itok list -> ((section list * conditionalDirectiveKind
+    option) * itok list) option **)
+
+let rec parse_sections fuel top_level toks =
+  match fuel with
+  | O -> None
+  | S f ->
+    let (p, toks1) = parse_flat toks in
+    let (flat, cdk) = p in
+    (match cdk with
+     | Some k ->
+       if conditionalDirectiveKind_is_if k
+       then (match parse_branches f toks1 with
+             | Some p0 ->
+               let (branches, toks2) = p0 in
+               (match parse_sections f top_level toks2 with
+                | Some p1 ->
+                  let (p2, toks3) = p1 in
+                  let (rest, c) = p2 in
+                  Some (((flat :: ((Nested branches) :: rest)), c), toks3)
+                | None -> None)
+             | None -> None)
+       else if top_level
+            then (match parse_sections f top_level toks1 with
+                  | Some p0 ->
+                    let (p1, toks3) = p0 in
+                    let (rest, c) = p1 in Some (((flat :: rest), c), toks3)
+                  | None -> None)
+            else Some (((flat :: []), cdk), toks1)
+     | None -> Some (((flat :: []), None), toks1))
+
+(** val parse_branches :
+    nat -> itok list -> (tree list * itok list) option **)
+
+and parse_branches fuel toks =
+  match fuel with
+  | O -> None
+  | S f ->
+    (match parse_sections f false toks with
+     | Some p ->
+       let (p0, toks1) = p in
+       let (secs, cdk) = p0 in
+       if match cdk with
+          | Some k -> conditionalDirectiveKind_is_else k
+          | None -> false
+       then (match parse_branches f toks1 with
+             | Some p1 ->
+               let (rest, toks2) = p1 in Some (((Tree secs) :: rest), toks2)
+             | None -> None)
+       else Some (((Tree secs) :: []), toks1)
+     | None -> None)
+
+(** val parse_next :
+    nat -> bool -> itok list -> ((tree * conditionalDirectiveKind
+    option) * itok list) option **)
+
+let parse_next fuel top_level toks =
+  match parse_sections fuel top_level toks with
+  | Some p ->
+    let (p0, r) = p in let (secs, cdk) = p0 in Some (((Tree secs), cdk), r)
+  | None -> None
+
+(** val parse_fuel : rawTokenType list -> nat **)
+
+let parse_fuel l =
+  add (mul (S (S O)) (length l)) (S O)
+
+(** val parse_opt : rawTokenType list -> tree option **)
+
+let parse_opt l =
+  match parse_next (parse_fuel l) true (enumerate_from O l) with
+  | Some p -> let (p0, _) = p in let (t, _) = p0 in Some t
+  | None -> None
+
+(** val parse : rawTokenType list -> tree **)
+
+let parse l =
+  match parse_opt l with
+  | Some t -> t
+  | None -> Tree []
+
+(** val explored : tree -> bool **)
+
+let rec explored = function
+| Tree ss -> forallb explored_section ss
+
+(** val explored_section : section -> bool **)
+
+and explored_section = function
+| Flat (e, _, _) -> e
+| Nested bs -> forallb explored bs
+
+(** val pass_all :
+    ('a1 -> 'a1 * nat list) -> 'a1 list -> 'a1 list * nat list **)
+
+let rec pass_all f = function
+| [] -> ([], [])
+| a :: r ->
+  let (a', p1) = f a in
+  let (r', p2) = pass_all f r in ((a' :: r'), (app p1 p2))
+
+(** val pass_find_or_last :
+    ('a1 -> 'a1 * nat list) -> ('a1 -> bool) -> 'a1 list -> 'a1 list * nat
+    list **)
+
+let rec pass_find_or_last f pred = function
+| [] -> ([], [])
+| a :: r ->
+  if pred a
+  then let (a', p) = f a in ((a' :: r), p)
+  else (match r with
+        | [] -> let (a', p) = f a in ((a' :: []), p)
+        | _ :: _ -> let (r', p) = pass_find_or_last f pred r in ((a :: r'), p))
+
+(** val range_list : nat -> nat -> nat list **)
+
+let range_list start stop =
+  seq start (sub stop start)
+
+(** val pass_tree : tree -> tree * nat list **)
+
+let rec pass_tree = function
+| Tree ss -> let (ss', p) = pass_all pass_section ss in ((Tree ss'), p)
+
+(** val pass_section : section -> section * nat list **)
+
+and pass_section = function
+| Flat (_, a, b) -> ((Flat (true, a, b)), (range_list a b))
+| Nested bs ->
+  let (bs', p) = pass_find_or_last pass_tree (fun g -> negb (explored g)) bs
+  in
+  ((Nested bs'), p)
+
+(** val passes_opt : tree -> nat -> nat list list option **)
+
+let rec passes_opt t = function
+| O -> None
+| S f ->
+  let (t', p) = pass_tree t in
+  if explored t'
+  then Some (p :: [])
+  else (match passes_opt t' f with
+        | Some ps -> Some (p :: ps)
+        | None -> None)
+
+(** val passes : tree -> nat -> nat list list **)
+
+let passes t fuel =
+  match passes_opt t fuel with
+  | Some ps -> ps
+  | None -> []
+
+type flat_entry = bool * (nat * nat)
+
+(** val flat_list : tree -> flat_entry list **)
+
+let rec flat_list = function
+| Tree ss -> flat_map flat_list_section ss
+
+(** val flat_list_section : section -> flat_entry list **)
+
+and flat_list_section = function
+| Flat (e, a, b) -> (e, (a, b)) :: []
+| Nested bs -> flat_map flat_list bs
+
+(** val nflat : tree -> nat **)
+
+let nflat t =
+  length (flat_list t)
+
+(** val passes_fuel : tree -> nat **)
+
+let passes_fuel t =
+  S (nflat t)
+
+(** val all_passes : rawTokenType list -> nat list list **)
+
+let all_passes l =
+  let t = parse l in passes t (passes_fuel t)
